@@ -170,6 +170,19 @@ def genesisCommit (root : (Bytes → Option Bytes) → Nat) (c : Config) (allocs
           .ok (m3, { height := genesisHeaderHeight, timestamp := genesisHeaderTimestamp,
                      numTxs := 0, stateRoot := root (content m3) })
 
+/-- a `chain.RuleFactory` as far as genesis is concerned: `GetRules(t).GetMinUnitPrice()` -/
+abbrev PriceRules := Int → List Nat
+
+/-- `NewGenesisCommit` with its rule factory argument: `genesisRules := ruleFactory.GetRules(0)`
+— the rules in force at the genesis *state* timestamp 0 (which is what the state records),
+not those in force at the genesis *header's* timestamp (2023-01-01). -/
+def genesisCommitRF (root : (Bytes → Option Bytes) → Nat) (balancePrefix heightPrefix
+    timestampPrefix feePrefix : Bytes) (rf : PriceRules) (allocs : List Alloc) :
+    Except Err (KV × Header) :=
+  genesisCommit root { balancePrefix := balancePrefix, heightPrefix := heightPrefix,
+                       timestampPrefix := timestampPrefix, feePrefix := feePrefix,
+                       minUnitPrice := rf 0 } allocs
+
 /-- distinct keys of a view, newest first (what iterating the committed state lists) -/
 def keysOf : KV → List Bytes
   | [] => []
